@@ -371,14 +371,14 @@ def gen_histories(ctx: Ctx):
         for ys in itertools.product(range(top + 1), repeat=len(base) - 1):
             yield {"n": n, "hashes": [1, 2, 3], "ops": with_yields(base, list(ys) + [0])}, "regression"
     # random histories, random yields
-    nrand = 350 if ctx.quick() else 6000
+    nrand = 1200 if ctx.quick() else 8000
     for _ in range(nrand):
         n = rng.choice([3, 4, 4])
         base = rand_base(rng, n, rng.randint(3, 12))
         ys = [rng.choice([0, 0, 1, 1, 2, 3]) for _ in base]
         yield {"n": n, "hashes": rand_hashes(rng, n), "ops": with_yields(base, ys)}, "random"
     # exhaustive placements on random short bases
-    nbase = 2 if ctx.quick() else 60
+    nbase = 6 if ctx.quick() else 60
     for _ in range(nbase):
         n = rng.choice([3, 4])
         base = rand_base(rng, n, 5 if not ctx.quick() else 4)
